@@ -203,3 +203,96 @@ func VerifC03Node() {
 	}
 	verifReach("done")
 }
+
+func init() {
+	verifHarnesses["VerifC13Handshake"] = VerifC13Handshake
+}
+
+// VerifC13Handshake: the real handshake goroutine runs beside the message loop while the peer
+// sends any sequence of version (every peer-controlled field symbolic, including the user agent),
+// verack, headers, addr and inv messages. The node becomes ready only after a headers reply that
+// arrived after both version and verack and whose first header passes the chain check; until then
+// nothing reaches the repositories or the tx manager.
+func VerifC13Handshake() {
+	steps := verifParam("steps", 3)
+	agentLen := verifParam("agentlen", 14)
+	e := newNetEnv(nondetBool("with-tx-manager"))
+	verifyOnly := nondetBool("verify-only")
+	if verifyOnly {
+		e.node.SetVerifyOnly()
+	}
+	e.headers.verifyOK = func(h *wire.BlockHeader) bool { return h.Nonce == verifMagicNonce }
+	done := make(chan error, 1)
+	go func() { done <- e.node.handshake(e.ctx, e.intr) }()
+	verifSettle()
+
+	versionSeen, verackSeen := false, false
+	for s := 0; s < steps; s++ {
+		complete := e.node.HandshakeIsComplete()
+		verifAssert(complete == (versionSeen && verackSeen), "handshake-complete-flag-not-version-and-verack")
+		proves := false
+		var cmd string
+		var payload []byte
+		switch pick(fmt.Sprintf("msg%d", s), 5) {
+		case 0:
+			me := wire.NewNetAddressIPPort(nondetBytes(fmt.Sprintf("vip%d", s), 16), nondetU16(fmt.Sprintf("vport%d", s)), 0)
+			m := wire.NewMsgVersion(me, me, nondetU64(fmt.Sprintf("vnonce%d", s)), int32(nondetU32(fmt.Sprintf("vheight%d", s))))
+			m.UserAgent = string(nondetBytes(fmt.Sprintf("agent%d", s), agentLen))
+			m.ProtocolVersion = int32(nondetU32(fmt.Sprintf("vproto%d", s)))
+			m.Services = wire.ServiceFlag(nondetU64(fmt.Sprintf("vservices%d", s)))
+			cmd, payload = m.Command(), encodeMsg(m)
+			versionSeen = true
+		case 1:
+			cmd = wire.CmdVerAck
+			verackSeen = true
+		case 2:
+			m := wire.NewMsgHeaders()
+			h := &wire.BlockHeader{Version: 1, Timestamp: 1600000000, Bits: 0x1d00ffff, Nonce: nondetU32(fmt.Sprintf("hnonce%d", s))}
+			m.AddBlockHeader(h)
+			cmd, payload = m.Command(), encodeMsg(m)
+			proves = complete && h.Nonce == verifMagicNonce
+		case 3:
+			m := wire.NewMsgAddr()
+			m.AddAddress(wire.NewNetAddressIPPort(nondetBytes(fmt.Sprintf("ip%d", s), 16), 8333, wire.SFNodeNetwork))
+			cmd, payload = m.Command(), encodeMsg(m)
+		case 4:
+			m := wire.NewMsgInv()
+			x := symHash(fmt.Sprintf("inv%d", s))
+			x[0] = 1
+			m.AddInvVect(wire.NewInvVect(wire.InvTypeTx, &x))
+			cmd, payload = m.Command(), encodeMsg(m)
+		}
+		e.conn.in, e.conn.pos = frameMsg(cmd, payload, false), 0
+		err := e.node.handleMessage(e.ctx, e.conn)
+		verifSettle()
+		ready := e.node.IsReady()
+		verifObserve("step", s, cmd, complete, proves, err == nil, ready, e.node.Verified(), e.conn.closed)
+		if proves {
+			verifReach("proved-chain")
+			if verifyOnly {
+				verifAssert(e.node.Verified() && e.conn.closed, "verify-only-node-not-disconnected-after-verification")
+			} else {
+				verifAssert(ready, "proved-peer-not-ready")
+			}
+			break
+		}
+		verifAssert(!ready, "ready-without-proving-the-chain:"+cmd)
+		verifAssert(!e.node.Verified(), "verified-without-proving-the-chain:"+cmd)
+		verifAssert(e.headers.processed == 0, "header-repository-reached-before-verification")
+		verifAssert(e.peers.adds == 0 && e.peers.scores == 0, "address-book-reached-before-verification")
+		verifAssert(e.txManagerUntouched(), "tx-manager-reached-before-verification")
+		for k := range e.node.handlers {
+			verifAssert(preVerificationCommands[k], "handler-enabled-before-verification:"+k)
+		}
+		if err != nil || e.conn.closed {
+			verifReach("dropped")
+			break
+		}
+	}
+	if versionSeen && verackSeen {
+		verifReach("handshake-completed")
+	}
+	close(e.intr)
+	verifSettle()
+	verifReach("done")
+}
